@@ -2,11 +2,15 @@ import NTV.Model.PolyZ
 import NTV.Proofs.C09
 import NTV.Proofs.C10
 import NTV.Proofs.Lemmas.PolyZProofs4
+import NTV.Proofs.Lemmas.ZassenhausMain
 /-! # C07 — factorisation over ℤ: what is proved so far.
 Irreducibility of the returned factors and completeness of the product rest on Mignotte's bound, Hensel
 uniqueness and Cantor–Zassenhaus; they are certified on every explored case by an independent oracle
 (exact product, multiplicities, irreducibility certificates). The theorems below are the building blocks
-the routine uses, proved for all inputs. -/
+the routine uses, proved for all inputs.
+UPDATE: irreducibility, the exact product identity and completeness are now proved for every input and every
+draw stream: see the last section (`factors_irreducible`, `product_identity`, `complete`,
+`squarefree_factors_irreducible`, `mignotte_for_coeffBound`, `hensel_uniqueness`). -/
 open Polynomial
 namespace NTV.C07
 open NTV.PolyG
@@ -314,5 +318,200 @@ example : C (1 : ℤ) * ([([1, 1], 2)].map fun fe : List Int × Nat => toPoly fe
   have : toPoly ([1, 1] : List Int) = X - C (-1) := by simp [toPoly]; ring
   rw [this]
   exact irreducible_X_sub_C _
+
+/-! ## Irreducibility, exact product, completeness (Berlekamp–Zassenhaus correctness)
+Mignotte's bound (`mignotte_for_coeffBound`, from Mathlib's Mahler-measure inequalities), uniqueness of
+Hensel lifts (`hensel_uniqueness`), the invariant of the recombination loop (`NTV.Zas.Inv`,
+`NTV.PolyZ.combine_irreducible`) and the fact that the prime search cannot leave the `i32` range
+(`NTV.PolyZ.primeSearch_top`: at most 100000 primes are tried and π(2³¹) ≥ 100000) give: every returned
+factor is irreducible. With the earlier structural theorems the factorisation is then exact and complete.
+All statements are for every input and every draw stream, about the runs that return `.ok`. -/
+
+/-- **(Z1) Mignotte's bound for the bound the code computes.** For a canonical `a` of degree n ≥ 1 and every
+factorisation `a = g·h·h'` in ℤ[X]: every coefficient `c` of `lc(h')·h` satisfies
+`2·|c| < coeffBound a n = 2·|aₙ|·2^(n-1)·(|aₙ| + Σ|aᵢ|)`; hence it lies in the symmetric residue window
+`[-⌊pᵉ/2⌋, pᵉ - ⌊pᵉ/2⌋)` of every modulus `pᵉ > bound` (`NTV.PolyZ.mignotte_symmetric_range`). -/
+theorem mignotte_for_coeffBound (a : List Int) (ha : a ≠ []) (hca : Canon a) (hn : 2 ≤ a.length)
+    (g h h' : ℤ[X]) (hfac : toPoly a = g * h * h') (j : ℕ) :
+    2 * |(C h'.leadingCoeff * h).coeff j| < coeffBound a (degU a) :=
+  NTV.PolyZ.mignotte_for_coeffBound a ha hca hn g h h' hfac j
+
+example : 2 * |(C (X + 1 : ℤ[X]).leadingCoeff * (X - 1)).coeff 0| < coeffBound [-1, 0, 1] (degU [-1, 0, 1]) :=
+  mignotte_for_coeffBound [-1, 0, 1] (by simp) (by intro h; simp) (by simp) 1 (X - 1) (X + 1)
+    (by simp [toPoly]; ring) 0
+
+/-- **(Z2) Hensel uniqueness.** Let P be prime, e ≥ 1, `a ∈ ℤ[X]` with P ∤ lc(a) and `a` squarefree modulo P,
+and G₁..G_k monic, irreducible modulo P, with lc(a)·∏ Gᵢ ≡ a (mod Pᵉ). If `a = h·h'` in ℤ[X] then
+`h ≡ lc(h)·∏ {Gᵢ | (Gᵢ mod P) ∣ (h mod P)}` and `h' ≡ lc(h')·∏ {the other Gᵢ}` modulo Pᵉ. -/
+theorem hensel_uniqueness {P e : ℕ} {a : ℤ[X]} {L : List ℤ[X]} (hP : P.Prime) (he : 1 ≤ e)
+    (hlc : ¬ (P : ℤ) ∣ a.leadingCoeff) (hsq : Squarefree (a.map (Int.castRingHom (ZMod P))))
+    (hmon : ∀ G ∈ L, G.Monic) (hirr : ∀ G ∈ L, Irreducible (G.map (Int.castRingHom (ZMod P))))
+    (hprod : NTV.Hensel.PCong ((P : ℤ) ^ e) (C a.leadingCoeff * L.prod) a) {h h' : ℤ[X]} (hfac : a = h * h') :
+    (open Classical in
+      NTV.Hensel.PCong ((P : ℤ) ^ e) (C h.leadingCoeff *
+        (L.filter fun G => G.map (Int.castRingHom (ZMod P)) ∣ h.map (Int.castRingHom (ZMod P))).prod) h) ∧
+    (open Classical in
+      NTV.Hensel.PCong ((P : ℤ) ^ e) (C h'.leadingCoeff *
+        (L.filter fun G => !decide (G.map (Int.castRingHom (ZMod P)) ∣ h.map (Int.castRingHom (ZMod P)))).prod) h') :=
+  NTV.Zas.hensel_subset ⟨hP, he, hlc, hsq, hmon, hirr, hprod⟩ hfac
+
+/-- **(Z2) uniqueness of the subset**: under the same hypotheses, if the lifted list is split as `L ~ T ++ T'`
+and `h ≡ lc(h)·∏ T (mod Pᵉ)`, then T is exactly the set of lifted factors that divide `h` modulo P. -/
+theorem hensel_uniqueness_subset {P e : ℕ} {a : ℤ[X]} {L T T' : List ℤ[X]} (hP : P.Prime) (he : 1 ≤ e)
+    (hlc : ¬ (P : ℤ) ∣ a.leadingCoeff) (hsq : Squarefree (a.map (Int.castRingHom (ZMod P))))
+    (hmon : ∀ G ∈ L, G.Monic) (hirr : ∀ G ∈ L, Irreducible (G.map (Int.castRingHom (ZMod P))))
+    (hprod : NTV.Hensel.PCong ((P : ℤ) ^ e) (C a.leadingCoeff * L.prod) a) (hperm : L.Perm (T ++ T'))
+    {h h' : ℤ[X]} (hfac : a = h * h') (hc : NTV.Hensel.PCong ((P : ℤ) ^ e) (C h.leadingCoeff * T.prod) h) :
+    (∀ G ∈ T, G.map (Int.castRingHom (ZMod P)) ∣ h.map (Int.castRingHom (ZMod P))) ∧
+    (∀ G ∈ T', ¬ G.map (Int.castRingHom (ZMod P)) ∣ h.map (Int.castRingHom (ZMod P))) :=
+  NTV.Zas.Lifted.subset_unique ⟨hP, he, hlc, hsq, hmon, hirr, hprod⟩ hperm hfac hc
+
+/-- x² − 1 = (x − 1)(x + 1) modulo 3², lifted factors x − 1 and x + 1: the hypotheses of `hensel_uniqueness`
+and `hensel_uniqueness_subset` hold -/
+theorem hensel_example_hyps :
+    ¬ ((3 : ℕ) : ℤ) ∣ ((X - C 1) * (X - C (-1)) : ℤ[X]).leadingCoeff ∧
+    Squarefree (((X - C 1) * (X - C (-1)) : ℤ[X]).map (Int.castRingHom (ZMod 3))) ∧
+    (∀ G ∈ [(X - C 1 : ℤ[X]), X - C (-1)], G.Monic) ∧
+    (∀ G ∈ [(X - C 1 : ℤ[X]), X - C (-1)], Irreducible (G.map (Int.castRingHom (ZMod 3)))) ∧
+    NTV.Hensel.PCong (((3 : ℕ) : ℤ) ^ 2)
+      (C ((X - C 1) * (X - C (-1)) : ℤ[X]).leadingCoeff * [(X - C 1 : ℤ[X]), X - C (-1)].prod)
+      ((X - C 1) * (X - C (-1))) := by
+  have e1 : ((X - C 1 : ℤ[X])).map (Int.castRingHom (ZMod 3)) = X - C 1 := by simp
+  have e2 : ((X - C (-1) : ℤ[X])).map (Int.castRingHom (ZMod 3)) = X - C (-1) := by simp
+  have hlcA : ((X - C 1) * (X - C (-1)) : ℤ[X]).leadingCoeff = 1 := by
+    rw [leadingCoeff_mul, leadingCoeff_X_sub_C, leadingCoeff_X_sub_C, one_mul]
+  refine ⟨by rw [hlcA]; norm_num, ?_, ?_, ?_, ?_⟩
+  · rw [Polynomial.map_mul, e1, e2, squarefree_mul_iff]
+    refine ⟨IsCoprime.isRelPrime (isCoprime_X_sub_C_of_isUnit_sub (show IsUnit ((1 : ZMod 3) - -1) by decide)),
+      (irreducible_X_sub_C _).squarefree, (irreducible_X_sub_C _).squarefree⟩
+  · intro G hG
+    simp only [List.mem_cons, List.not_mem_nil, or_false] at hG
+    rcases hG with rfl | rfl <;> exact monic_X_sub_C _
+  · intro G hG
+    simp only [List.mem_cons, List.not_mem_nil, or_false] at hG
+    rcases hG with rfl | rfl
+    · rw [e1]; exact irreducible_X_sub_C _
+    · rw [e2]; exact irreducible_X_sub_C _
+  · rw [hlcA]; simpa using NTV.Hensel.PCong.refl _ _
+
+example := hensel_uniqueness (P := 3) (e := 2) (by norm_num) (by norm_num) hensel_example_hyps.1
+  hensel_example_hyps.2.1 hensel_example_hyps.2.2.1 hensel_example_hyps.2.2.2.1 hensel_example_hyps.2.2.2.2
+  (h := X - C 1) (h' := X - C (-1)) rfl
+
+example := hensel_uniqueness_subset (P := 3) (e := 2) (T := [X - C 1]) (T' := [X - C (-1)]) (by norm_num)
+  (by norm_num) hensel_example_hyps.1 hensel_example_hyps.2.1 hensel_example_hyps.2.2.1
+  hensel_example_hyps.2.2.2.1 hensel_example_hyps.2.2.2.2 (by simp) (h := X - C 1) (h' := X - C (-1)) rfl
+  (by rw [leadingCoeff_X_sub_C]; simpa using NTV.Hensel.PCong.refl _ _)
+
+/-- **(Z4) The recombination returns irreducible polynomials.** For every canonical primitive `a` and every
+draw stream: if `get_factors_of_squarefree(a)` returns, every returned polynomial is irreducible in ℤ[X] and
+over ℚ, and they multiply exactly to `a`. (A run that returns forces deg a ≥ 1 and `a` squarefree.) -/
+theorem squarefree_factors_irreducible (a : List Int) (s : NTV.Draw.Stream) (out : List (List Int))
+    (hca : Canon a) (hprim : (toPoly a).IsPrimitive) (h : getFactorsOfSquarefree a s = .ok out) :
+    (∀ f ∈ out, Irreducible (toPoly f) ∧ Irreducible ((toPoly f).map (Int.castRingHom ℚ))) ∧
+    toPoly a = (out.map toPoly).prod := by
+  obtain ⟨_, hprod, _⟩ := getFactorsOfSquarefree_spec a s out hca h
+  refine ⟨fun f hf => ?_, hprod⟩
+  have hi := NTV.PolyZ.squarefree_factors_irreducible a s out hca hprim h f hf
+  have hfp : (toPoly f).IsPrimitive :=
+    isPrimitive_of_dvd hprim (by rw [hprod]; exact List.dvd_prod (List.mem_map_of_mem hf))
+  exact ⟨hi, (IsPrimitive.Int.irreducible_iff_irreducible_map_cast hfp).mp hi⟩
+
+/-- x⁴ + 1 is irreducible although it splits modulo every prime: the recombination (here modulo 3⁴, two
+quadratic factors) returns it whole -/
+theorem run_example₃ : getFactorsOfSquarefree [1, 0, 0, 0, 1]
+    [[0, 0, 0, 0], [239, 25, 253, 198], [222, 50, 250, 202], [205, 75, 247, 12], [188, 100, 244, 140],
+      [171, 125, 241, 74]] = .ok [[1, 0, 0, 0, 1]] := by decide +kernel
+
+example : Irreducible (toPoly ([1, 0, 0, 0, 1] : List Int)) := by
+  have hprim : (toPoly ([1, 0, 0, 0, 1] : List Int)).IsPrimitive := by
+    have : (toPoly ([1, 0, 0, 0, 1] : List Int)).Monic := (NTV.PolyMod.monic_toPoly _ (by decide)).1
+    exact this.isPrimitive
+  exact ((squarefree_factors_irreducible _ _ _ (by intro h; simp) hprim run_example₃).1 _ (by simp)).1
+
+/-- the link between the two lists of a run: the factors handed to the multiplicity loop are the ones
+returned by the recombination of a canonical primitive polynomial -/
+theorem factorize_factors (a : List Int) (s : NTV.Draw.Stream) (c : Int) (fs : List (List Int × Nat))
+    (ha : a ≠ []) (hca : Canon a) (hlen : 2 ≤ a.length) (h : factorize a s = .ok (c, fs)) :
+    ∃ sq : List Int, Canon sq ∧ (toPoly sq).IsPrimitive ∧ getFactorsOfSquarefree sq s = .ok (fs.map Prod.fst) := by
+  obtain ⟨_, g, sq, factors, _, hsq, hfac, hmul⟩ := factorize_inv a s c fs h hlen
+  obtain ⟨_, _, _, hcpp⟩ := contPP_spec a ha hca
+  obtain ⟨p1, _, _, _, _⟩ := pp_facts ha hca
+  have hppne := NTV.Res.pp_ne_nil a ha hca
+  have hsq' : Canon sq ∧ toPoly sq ∣ toPoly (contPP a).2 := by
+    by_cases hdg : degU g ≠ 0
+    · rw [if_pos hdg] at hsq
+      simp only [divExactExpect] at hsq
+      split at hsq
+      · rename_i q hq
+        simp only [pure, Except.pure, Except.ok.injEq] at hsq; subst hsq
+        obtain ⟨_, h2, h3⟩ := divExact_sound _ _ _ hq
+        exact ⟨h3, ⟨_, h2⟩⟩
+      · simp [throw, throwThe, MonadExceptOf.throw] at hsq
+    · rw [if_neg hdg] at hsq
+      simp only [pure, Except.pure, Except.ok.injEq] at hsq; subst hsq
+      exact ⟨hcpp, dvd_refl _⟩
+  obtain ⟨new, r, hout, hmap, _⟩ := multiplicities_spec factors _ [] fs hppne hcpp hmul
+  simp only [List.nil_append] at hout
+  subst hout
+  exact ⟨sq, hsq'.1, isPrimitive_of_dvd p1 hsq'.2, by rw [hmap]; exact hfac⟩
+
+/-- **(Z5) C07, irreducibility.** For every non-zero canonical `a` and every draw stream: every polynomial
+returned by `factorize` is irreducible in ℤ[X], and irreducible over ℚ. -/
+theorem factors_irreducible (a : List Int) (s : NTV.Draw.Stream) (c : Int) (fs : List (List Int × Nat))
+    (ha : a ≠ []) (hca : Canon a) (h : factorize a s = .ok (c, fs)) :
+    ∀ fe ∈ fs, Irreducible (toPoly fe.1) ∧ Irreducible ((toPoly fe.1).map (Int.castRingHom ℚ)) := by
+  have hl : a.length = 1 ∨ 2 ≤ a.length := by
+    have := List.length_pos_of_ne_nil ha; omega
+  rcases hl with hl | hl
+  · obtain ⟨rfl, rfl, _⟩ := factorize_const a s c fs hca hl h
+    simp
+  · obtain ⟨sq, h1, h2, h3⟩ := factorize_factors a s c fs ha hca hl h
+    intro fe hfe
+    exact (squarefree_factors_irreducible sq s _ h1 h2 h3).1 fe.1 (List.mem_map_of_mem hfe)
+
+/-- **C07, the product identity — FULL.** For every non-zero canonical `a` and every draw stream: if
+`factorize(a)` returns `(c, [(f₁,e₁), …])` then `c · ∏ fᵢ^eᵢ = a` exactly in ℤ[X]. -/
+theorem product_identity (a : List Int) (s : NTV.Draw.Stream) (c : Int) (fs : List (List Int × Nat))
+    (ha : a ≠ []) (hca : Canon a) (h : factorize a s = .ok (c, fs)) :
+    C c * (fs.map fun fe => toPoly fe.1 ^ fe.2).prod = toPoly a :=
+  product_identity_of_irreducible_partial a s c fs ha hca
+    (fun fe hfe => (factors_irreducible a s c fs ha hca h fe hfe).1) h
+
+/-- **C07, completeness.** Every irreducible divisor of `a` of positive degree is associated to exactly one
+returned factor. (The irreducible divisors of degree 0 are the primes dividing the content `c`.) -/
+theorem complete (a : List Int) (s : NTV.Draw.Stream) (c : Int) (fs : List (List Int × Nat))
+    (ha : a ≠ []) (hca : Canon a) (h : factorize a s = .ok (c, fs)) (π : ℤ[X]) (hπ : Irreducible π)
+    (hd : π ∣ toPoly a) (hdeg : 0 < π.natDegree) :
+    ∃ fe ∈ fs, Associated π (toPoly fe.1) ∧ ∀ fe' ∈ fs, Associated π (toPoly fe'.1) → fe' = fe := by
+  have hirr := factors_irreducible a s c fs ha hca h
+  have hprod := product_identity a s c fs ha hca h
+  obtain ⟨hc0, _, _, _⟩ := factor_shape a s c fs ha hca h
+  obtain ⟨_, hrel, _⟩ := distinct a s c fs ha hca h
+  have hπp : Prime π := hπ.prime
+  rw [← hprod] at hd
+  rcases hπp.dvd_or_dvd hd with h1 | h1
+  · exfalso
+    have := natDegree_le_of_dvd h1 (by rw [Ne, C_eq_zero]; exact hc0)
+    rw [natDegree_C] at this
+    omega
+  · obtain ⟨y, hy, hπy⟩ := hπp.dvd_prod_iff.mp h1
+    obtain ⟨fe, hfe, rfl⟩ := List.mem_map.mp hy
+    have hπf : π ∣ toPoly fe.1 := hπp.dvd_of_dvd_pow hπy
+    have hassoc := hπ.associated_of_dvd (hirr fe hfe).1 hπf
+    refine ⟨fe, hfe, hassoc, ?_⟩
+    intro fe' hfe' hassoc'
+    by_contra hne
+    rw [List.pairwise_map] at hrel
+    have : Std.Symm (fun x y : List Int × Nat => IsRelPrime (toPoly x.1) (toPoly y.1)) :=
+      ⟨fun x y hxy => hxy.symm⟩
+    have hr : IsRelPrime (toPoly fe'.1) (toPoly fe.1) := hrel.forall hfe' hfe hne
+    have h12 : Associated (toPoly fe'.1) (toPoly fe.1) := hassoc'.symm.trans hassoc
+    exact (hirr fe' hfe').1.not_isUnit (hr (dvd_refl _) h12.dvd)
+
+example := factors_irreducible _ _ _ _ (by simp) canon_example run_example
+example : C (2 : ℤ) * ([([1, 1], 2), ([-1, 1, 1], 1)].map fun fe : List Int × Nat => toPoly fe.1 ^ fe.2).prod
+    = toPoly [-2, -2, 4, 6, 2] := product_identity _ _ _ _ (by simp) canon_example run_example
+example := complete _ _ _ _ (by simp) canon_example run_example
 
 end NTV.C07
